@@ -11,6 +11,7 @@ type checkFn func(*Ctx) (string, []string)
 var registry = map[string]checkFn{
 	"C01": checkC01,
 	"C02": checkC02,
+	"C03": checkC03,
 	"C04": checkC04,
 	"C05": checkC05,
 	"C06": checkC06,
